@@ -337,6 +337,23 @@ def directed() -> List[Dict[str, Any]]:
     # gates directly after one another (no register write in between)
     D.append({**e_c, "regstyle": "hoisted", "body": [{"s": "g2", "g": "cnot", "a": 1, "b": 0}, {"s": "g1", "g": "rot_x", "q": 0, "imm": [8, 4]}, {"s": "g1", "g": "z", "q": 0}, {"s": "g2", "g": "cnot", "a": 0, "b": 1}, {"s": "g1", "g": "s", "q": 1}], "ret": True})
     D.append({**c_c, "regstyle": "hoisted", "body": [{"s": "g1", "g": "h", "q": 1}, {"s": "g1", "g": "h", "q": 1}, {"s": "g2", "g": "cphase", "a": 1, "b": 2}, {"s": "g1", "g": "t", "q": 2}, {"s": "g1", "g": "rot_z", "q": 2, "imm": [3, 2]}], "ret": True})
+    # every two-qubit placement directly followed / preceded by every kind of single-qubit gate on either of its qubits
+    # (what an optimisation across neighbouring expansions would see); the neighbour is the last / first gate so that
+    # nothing after it can undo the effect
+    singles = [{"g": g} for g in ONE] + [{"g": r, "imm": im} for r in ROT for im in ([8, 4], [3, 2])]
+    for g in ("cnot", "cphase"):
+        for (a, b) in ((1, 0), (0, 1), (1, 2)):
+            for q in (a, b):
+                for sg in singles:
+                    two = {"s": "g2", "g": g, "a": a, "b": b}
+                    one = {"s": "g1", "q": q, **sg}
+                    D.append({**c_c, "regstyle": "hoisted", "body": [{"s": "g1", "g": "h", "q": a}, two, one], "ret": True})
+                    D.append({**c_c, "regstyle": "hoisted", "body": [{"s": "g1", "g": "h", "q": a}, one, two], "ret": True})
+    # two single-qubit gates on the same qubit directly after one another
+    for q in (0, 1):
+        for s1 in singles:
+            for s2 in singles:
+                D.append({**e_c, "regstyle": "hoisted", "body": [{"s": "g1", "q": q, **s1}, {"s": "g1", "q": q, **s2}], "ret": True})
     for style in ("sdk", "perqubit"):
         D.append({**c_c, "regstyle": style, "body": [{"s": "if", "on": "arr", "slot": 0, "cmp": "eq", "v": 1, "body": [{"s": "g2", "g": "cnot", "a": 1, "b": 2}]}, {"s": "g2", "g": "cphase", "a": 2, "b": 1}], "ret": True})
         D.append({**four, "regstyle": style, "body": [{"s": "g2", "g": "cnot", "a": 1, "b": 2}, {"s": "g1", "g": "h", "q": 3}, {"s": "g2", "g": "cnot", "a": 2, "b": 3}, {"s": "g2", "g": "cphase", "a": 3, "b": 1}], "ret": True})
